@@ -258,6 +258,21 @@ def apply_op(w, op):
                 return [], 'skipped'
             getattr(el, name)[i] = val
             _model_set(w, name, i, val)
+        elif kind == 'set_at':
+            # item assignment on the child list itself: children[i] = text replaces the i-th child, whatever its name
+            kids = el.children
+            if not len(kids):
+                return [], 'skipped'
+            i = op['i'] if -len(kids) <= op['i'] < len(kids) else op['i'] % len(kids)
+            target = kids[i]
+            cname = target.name
+            if cname not in w.finfo:
+                return [], 'skipped'
+            cvals = w.finfo[cname][3]
+            cval = cvals[op.get('k', 0) % (len(cvals) - 1)]
+            j = sum(1 for c in list(kids)[:list(kids).index(target)] if c.name == cname)
+            kids[i] = cval
+            _model_set(w, cname, j, cval)
         elif kind == 'set_element':
             setattr(el, name, w.make(name, val))
             _model_set(w, name, 0, val)
@@ -499,7 +514,7 @@ def cells(draw, versions):
     return field_cell(v, fname, ref, picks)
 
 
-OPS = ('set', 'setidx', 'set_element', 'add', 'add_child', 'del', 'delidx', 'remove', 'copy', 'read', 'read', 'set_datatype')
+OPS = ('set', 'setidx', 'set_element', 'add', 'add_child', 'del', 'delidx', 'remove', 'copy', 'read', 'read', 'set_datatype', 'set_at')
 
 
 @st.composite
@@ -509,7 +524,7 @@ def op_for(draw, cell):
     op = {'op': kind, 'f': draw(st.sampled_from(names)), 'k': draw(st.integers(0, 3))}
     if kind in ('set', 'del', 'read', 'set_datatype'):
         op['spell'] = draw(st.sampled_from(SPELLS))
-    if kind in ('setidx', 'delidx', 'remove'):
+    if kind in ('setidx', 'delidx', 'remove', 'set_at'):
         op['i'] = draw(st.integers(-4, 3))
     return op
 
